@@ -61,6 +61,10 @@ def combos(tier):
             # a user variable written in terms of one of KROME's standard shortcuts (invTe), which the reader registers itself
             krome_uses = ["@format:idx,R,R,P,P,Tmin,Tmax,rate", "@var:kk2 = 1.0d-3*invTe", "1,H,H,H,H,NONE,NONE,kk2*1.0d-3"]
             out.append(("krome-var-uses-builtin", {"net.krome": krome_uses}, ["krome"], "", {}, b))
+        out.append(("leeds-then-uclchem", {"a.leeds": leeds[:2], "b.ucl": ucl[:4]}, ["leeds", "uclchem"], "", {}, b))
+        out.append(("uclchem-then-leeds", {"a.ucl": ucl[:4], "b.leeds": leeds[:2]}, ["uclchem", "leeds"], "", {}, b))
+        longx = "*".join(["(1.59e16*Av/(Tgas+1.0e2)/zeta)"] * 4)
+        out.append(("kida+long-modifiers", {"net.kida": kida}, ["kida"], "", {"rate_modifier": {4894: longx}, "ode_modifier": {"C": {"factors": [longx + "*1.3e-17"], "reactants": [["H", "CH"]]}}}, b))
         out.append(("kida+umist", {"net.kida": kida, "net.umist": umist}, ["kida", "umist"], "", {}, b))
         for gm in ("hh93", "hh93i"):
             out.append((f"leeds/{gm}", {"net.leeds": leeds}, ["leeds"], gm, {}, b))
